@@ -162,7 +162,8 @@ def fam_suppress(p: Dict[str, Any], problems: List[str], w: World) -> Tuple[str,
     box: Dict[str, Any] = {}
 
     def inject(data: bytes, src: str = "10.0.0.50") -> None:
-        w.net.inject(host, data, (src, 5353))
+        # (a one-shot resolver multicasts its QM question from an ephemeral port: heard all the same)
+        w.net.inject(host, data, (src, p.get("heard_port", 5353) if src != "10.0.0.50" else 5353))
 
     if heard:
         known_at_t2 = list(base) + [own_ptr]
@@ -433,6 +434,9 @@ def points(tier: str) -> List[Dict[str, Any]]:
                             if gap in (500, 999, 1000):
                                 pts.append({"fam": "suppress", "first": first, "gap": gap, "rel": rel, "second": second,
                                             "heard_q": hq, "other_ka": True})
+                    if first == "heard" and second == "QM" and gap in (500, 999, 1000):
+                        pts.append({"fam": "suppress", "first": first, "gap": gap, "rel": rel, "second": second,
+                                    "heard_port": 40404})
                     if first in ("heard", "own") and second == "QM" and gap in (500, 999, 1000, 1001):
                         for b in (1, 200, gap - 1):
                             if 0 < b < gap:
